@@ -1,7 +1,8 @@
 SPECIFICATION LSpec
 CONSTANTS
-  MaxChunks = 7
+  MaxChunks = 6
   Levels = {1, 2}
 INVARIANT LinksOk
 INVARIANT HeadsOk
+INVARIANT PointersValid
 CHECK_DEADLOCK FALSE
